@@ -46,7 +46,7 @@ template<class T> static void run(Rng& g, int n) {
 		same<T>(#F "ZO" + ty, glm::F##ZO ARGS, CFG_LH ? glm::F##LH_ZO ARGS : glm::F##RH_ZO ARGS, ps); same<T>(#F "NO" + ty, glm::F##NO ARGS, CFG_LH ? glm::F##LH_NO ARGS : glm::F##RH_NO ARGS, ps);
 		V4(ortho, false, (l, r, b, t, nr, fr), l, r, b, t)
 		V4(frustum, true, (l, r, b, t, nr, fr), l, r, b, t)
-		T fovy = (T)g.real(0.2, 2.8), asp = (T)g.real(0.3, 3); LD th = tanl((LD)fovy / 2); LD top = nr * th, right = top * asp;
+		T fovy = (T)g.real(0.2, 2.8), asp = (T)g.real(0.3, 3); if (it % 4 == 1) fovy = (T)powl(10, -(LD)g.real(0.7, 4));   /* narrow fields of view (telephoto, down to 1e-4 rad): cot(fov/2) must keep its relative accuracy */ LD th = tanl((LD)fovy / 2); LD top = nr * th, right = top * asp;
 		ps = "fovy=" + str((double)fovy) + " aspect=" + str((double)asp) + " n=" + str((double)nr) + " f=" + str((double)fr);
 		V4(perspective, true, (fovy, asp, nr, fr), -right, right, -top, top)
 		T w = (T)g.real(100, 2000), h = (T)g.real(100, 2000); right = top * ((LD)w / (LD)h);
